@@ -143,7 +143,7 @@ func init() {
 			{
 				Name: "boundaries", Exhaustive: "the listed unit boundaries +-1 s in both forms",
 				N: func(t fw.Tier) uint64 {
-					return uint64(len(boundaries)) * 3 * map[fw.Tier]uint64{fw.Quick: 20, fw.Thorough: 400}[t]
+					return uint64(len(boundaries)) * 3 * map[fw.Tier]uint64{fw.Quick: 20, fw.Thorough: 20000}[t]
 				},
 				Run: func(c *fw.Case) {
 					d := boundaries[c.Idx%uint64(len(boundaries))] + time.Duration(int(c.Idx/uint64(len(boundaries))%3)-1)*time.Second
@@ -156,7 +156,7 @@ func init() {
 				},
 			},
 			{
-				Name: "random", N: q(120000, 5000000),
+				Name: "random", N: q(120000, 300000000),
 				Run: func(c *fw.Case) {
 					r := c.R
 					var v string
